@@ -368,3 +368,26 @@ Definition cs_crash (no_fixpoint : bool) : verdict * Z * Z :=
 Theorem apply_before_savepoint_refuted :
   cs_crash false = (VOk, 2, 3) /\ cs_crash true = (VOk, 1, 3).
 Proof. vm_compute. split; reflexivity. Qed.
+
+(* recovery does not depend on the options of the recovering process: two processes with any two configurations
+   (log-buffer size, checksum checking) recover the same cut of a protocol-shaped log to the same verdict, the same
+   main file and the same applied records.  [recover_open] does not read c_bufsz at all; the checksum option is
+   covered by recover_crc_option_independent. *)
+Theorem recover_open_config_independent : forall c1 c2 rs (n : nat) main,
+  sp_checks = true -> wf_log rs = true -> no_reset rs = true -> crc_ok rs = true -> (n <= length (encode rs))%nat ->
+  recover_open c1 (firstn n (encode rs)) main = recover_open c2 (firstn n (encode rs)) main.
+Proof.
+  intros c1 c2 rs n main Hsp Hwf Hnr Hcrc Hn. unfold recover_open, recover.
+  pose proof (recover_crc_option_independent sp_checks rs n main Hwf Hnr Hcrc Hsp Hn) as H.
+  destruct (c_ccrc c1), (c_ccrc c2); congruence.
+Qed.
+
+(* ... and the recovered state is the savepoint state of C05_replay_cut_is_savepoint_state whatever these options are *)
+Theorem recover_open_is_savepoint_state : forall c rs (n : nat) main m,
+  sp_checks = true -> wf_log rs = true -> no_reset rs = true -> crc_ok rs = true -> (n <= length (encode rs))%nat ->
+  state_at rs main (last_sp sp_checks rs (Z.of_nat n)) = Some m ->
+  recover_open c (firstn n (encode rs)) main = (VOk, m, ops_before rs 0 (last_sp sp_checks rs (Z.of_nat n))).
+Proof.
+  intros c rs n main m Hsp Hwf Hnr Hcrc Hn Hst. unfold recover_open, recover.
+  apply replay_cut_is_savepoint_state; auto.
+Qed.
